@@ -312,6 +312,7 @@ def c_stats(ctx, case):
 
 def g_legacy(draw):
     C, F = gen.dims(draw, maxC=4, maxF=3)
+    C = gen.choice(draw, [C, C, 11, 12, 25])
     p = gen.gmm_params(draw, C, F, kmax=5.0)
     p["floors"] = np.broadcast_to(np.asarray(p["floors"], float), (C, F)).copy()
     r = gen.rng(draw)
